@@ -19,16 +19,23 @@ from checks.routing_ref import lit, var
 ID = "C12"
 LEVEL = "exploration"
 RULE = (
-    "maps = all subsets of size 1-2 (3 over a reduced universe) of a 33-rule universe (C03 shapes + defaults "
-    "twins + alias rules + per-rule strict_slashes/merge_slashes + non-ASCII literal + method sets; an alias "
-    "rule only together with a canonical rule of the same endpoint and arguments) x strict_slashes x "
-    "merge_slashes x redirect_defaults x every insertion order; every path of the map's generated path set "
-    "(C03 generator + non-ASCII / space / percent witnesses + '//evil.com' prefixed forms) x methods is matched "
-    "on an http adapter at script root '/'; every (path, method) that redirects is re-run for every query form "
-    "and on every other binding (https+port+/app, subdomain, ws with websocket rules); each redirect is followed "
-    "as a server would (percent-decode once, query string forwarded) until it stops. evaluation = one (map, config, "
-    "order, binding, path, method, query form) matched and, if it redirected, checked and followed (n_chains); "
-    "non-trivial = distinct ones that redirected."
+    "maps over a 49-rule universe: 28 general rules (C03 shapes, per-rule strict_slashes/merge_slashes, non-ASCII "
+    "literal, method sets) in all subsets of size 1-2 (3 over a reduced set); three canonicalisation groups - "
+    "endpoint d (two defaults rules, converter rule as leaf/branch, alias rules with and without their own "
+    "defaults, equal to / different from the canonical rule's), endpoint g (rules with DIFFERENT argument sets: "
+    "subset, superset, disjoint, defaults + converter mixed, alias with defaults), and rules inside rule factories "
+    "(defaults / alias / strict_slashes below EndpointPrefix, Submount, Subdomain) - in all valid subsets of size "
+    "1-3 (4 in thorough) and next to a general string / path rule; an alias rule only together with a canonical "
+    "rule that can express its arguments; x strict_slashes x merge_slashes x redirect_defaults x every insertion "
+    "order; every path of the generated path set (slash forms, non-ASCII / space / percent / '?#' witnesses, "
+    "'//evil.com' prefixed forms) x methods is matched on an http adapter at script root '/'; every (path, method) "
+    "that redirects is re-run on further bindings (https+port+/app, subdomain, ws with websocket rules, "
+    "host_matching, default_subdomain, bind_to_environ with host / script / path / query taken from a WSGI environ) "
+    "and query forms (none / str / dict / MultiDict, through bind() or match()): all 26 combinations for the map's "
+    "first configuration (thorough: every configuration of maps <= 2 rules), otherwise the plain one plus one "
+    "further binding per configuration in turn; each redirect is followed as a server would (percent-decode once, "
+    "query string forwarded) until it stops. evaluation = one (map, config, order, binding, path, method, query "
+    "form) matched and, if it redirected, checked and followed (n_chains); non-trivial = distinct ones that redirected."
 )
 ASSUMPTIONS = [
     "redirect_to targets are outside the claim (not generated)",
@@ -43,6 +50,7 @@ ASSUMPTIONS = [
 
 from werkzeug.datastructures import MultiDict  # noqa: E402
 from werkzeug.exceptions import HTTPException  # noqa: E402
+import werkzeug.routing as WR  # noqa: E402
 from werkzeug.routing import Map, Rule  # noqa: E402
 from werkzeug.routing.exceptions import RequestRedirect  # noqa: E402
 
@@ -75,30 +83,89 @@ def _universe():
     ]
     for i, sp in enumerate(u):
         sp["endpoint"] = f"e{i}"
-    # defaults / alias group: one endpoint "d" with argument x
-    grp = [
-        S((lit("d"),), True, defaults={"x": 1}, endpoint="d"),            # D0
-        S((lit("d"), var("int")), False, endpoint="d"),                     # D1
-        S((lit("d"), var("int")), True, endpoint="d"),                      # D1b
-        S((lit("al"), var("int")), False, endpoint="d", alias=True),        # AL
-        S((lit("al"), var("int")), True, endpoint="d", alias=True),         # ALb
-    ]
-    return u + grp
+    return u
 
 
-U = _universe()
-U_STR = [rr.rule_string(sp) + ("" if sp["methods"] is None else str(list(sp["methods"])))
-         + "".join(f" {k}={sp[k]}" for k in ("strict", "merge") if sp[k] is not None)
-         + (" defaults" if sp["defaults"] else "") + (" alias" if sp["alias"] else "") for sp in U]
+GENERAL = _universe()
+NG = len(GENERAL)
+
+
+def _groups():
+    """Canonicalisation groups: rules sharing an endpoint through defaults / alias.  name -> spec"""
+    S = rr.spec
+    d = {
+        # endpoint "d", argument x
+        "D0": S((lit("d"),), True, defaults={"x": 1}, endpoint="d"),
+        "D1": S((lit("d"), var("int")), False, endpoint="d"),
+        "D1B": S((lit("d"), var("int")), True, endpoint="d"),
+        "AL": S((lit("al"), var("int")), False, endpoint="d", alias=True),
+        "ALB": S((lit("al"), var("int")), True, endpoint="d", alias=True),
+        "D0B": S((lit("dtwo"),), True, defaults={"x": 2}, endpoint="d"),              # a second defaults rule
+        "ALD99": S((lit("dl"),), False, defaults={"x": 99}, endpoint="d", alias=True),  # alias with its own defaults,
+        "ALD1": S((lit("d1.html"),), False, defaults={"x": 1}, endpoint="d", alias=True),  # different from / equal to D0's
+        # endpoint "g": rules with DIFFERENT argument sets ({page} / {page, year} / {zz})
+        "G0": S((lit("g"), var("int", "page")), False, endpoint="g"),
+        "G1": S((lit("garch"),), True, defaults={"page": 1, "year": 2020}, endpoint="g"),
+        "G2": S((lit("g2"), var("int", "page"), var("int", "year")), False, endpoint="g"),
+        "G3": S((lit("gall"),), True, defaults={"page": 1}, endpoint="g"),
+        "G4": S((lit("gy"), var("int", "year")), True, defaults={"page": 1}, endpoint="g"),
+        "G5": S((lit("gz"),), True, defaults={"zz": 5}, endpoint="g"),
+        "GA": S((lit("galias"), var("int", "page")), False, defaults={"year": 2020}, endpoint="g", alias=True),
+        # the same inside rule factories (Rule.empty() has to carry defaults / alias / strict_slashes along)
+        "W0": S((lit("d"),), True, defaults={"x": 1}, endpoint="d", wrap=("endpointprefix", "submount")),
+        "W1": S((lit("d"), var("int")), False, endpoint="d", wrap=("endpointprefix", "submount")),
+        "WA": S((lit("al"), var("int")), False, endpoint="d", alias=True, wrap=("endpointprefix", "submount")),
+        "W2": S((lit("a"),), True, endpoint="w2", wrap=("submount",)),
+        "W3": S((lit("b"), var("int")), True, strict=False, endpoint="w3", wrap=("endpointprefix",)),
+        "W4": S((var("string", "s"),), True, endpoint="w4", wrap=("subdomain", "submount")),
+    }
+    return d
+
+
+GROUPS = _groups()
+U = GENERAL + list(GROUPS.values())
+ID = {name: NG + i for i, name in enumerate(GROUPS)}
+D0, D1, D1B, AL, ALB = (ID[n] for n in ("D0", "D1", "D1B", "AL", "ALB"))
+DG = [ID[n] for n in ("D0", "D1", "D1B", "AL", "ALB", "D0B", "ALD99", "ALD1")]
+GG = [ID[n] for n in ("G0", "G1", "G2", "G3", "G4", "G5", "GA")]
+WG = [ID[n] for n in ("W0", "W1", "WA", "W2", "W3", "W4")]
+
+
+def _ustr(sp):
+    return (rr.full_rule_string(sp) + ("" if sp["methods"] is None else str(list(sp["methods"])))
+            + "".join(f" {k}={sp[k]}" for k in ("strict", "merge") if sp[k] is not None)
+            + (f" defaults={dict(sp['defaults'])}" if sp["defaults"] else "") + (" alias" if sp["alias"] else "")
+            + (" in " + "(".join(sp["wrap"]) if sp["wrap"] else ""))
+
+
+U_STR = [_ustr(sp) for sp in U]
 N = len(U)
-D0, D1, D1B, AL, ALB = N - 5, N - 4, N - 3, N - 2, N - 1
 REDUCED = [1, 3, 5, 7, 17, 20, D0, D1, AL, 9, 24, 26]
+CROSS = [5, 7]
+
+
+def arguments(sp):
+    return {s[3] for s in sp["segs"] if s[0] == "var"} | {k for k, _v in (sp["defaults"] or ())}
+
+
+def eff_endpoint(sp):
+    return ("p." if "endpointprefix" in sp["wrap"] else "") + str(sp["endpoint"])
+
+
+def can_express(canon, alias) -> bool:
+    """canon (not an alias) can stand for every (endpoint, arguments) the alias rule can produce."""
+    if canon["alias"] or eff_endpoint(canon) != eff_endpoint(alias) or arguments(canon) != arguments(alias):
+        return False
+    ad = dict(alias["defaults"] or ())
+    return all(k in ad and ad[k] == v for k, v in (canon["defaults"] or ()))
 
 
 def valid(combo) -> bool:
+    sps = [U[i] for i in combo]
+    for a in sps:
+        if a["alias"] and not any(can_express(c, a) for c in sps):
+            return False                     # an alias needs a canonical twin that can express its arguments
     s = set(combo)
-    if (AL in s or ALB in s) and not (D1 in s or D1B in s):
-        return False                         # alias needs a canonical twin (same endpoint, same arguments)
     if D1 in s and D1B in s:
         return False                         # the same pattern as leaf and branch under one endpoint: ambiguous build
     if AL in s and ALB in s:
@@ -108,20 +175,47 @@ def valid(combo) -> bool:
 
 def descriptors(tier):
     T = tier == "thorough"
+    seen = set()
+
+    def emit(c):
+        c = tuple(sorted(c))
+        if c not in seen and valid(c):
+            seen.add(c)
+            return True
+        return False
+
     for i in range(N):
-        if valid((i,)):
+        if emit((i,)):
             yield (i,)
-    for c in itertools.combinations(range(N), 2):
-        if valid(c):
-            yield c
-    red = list(range(N)) if T else REDUCED
+    pair_pool = range(N) if T else range(NG)
+    for c in itertools.combinations(pair_pool, 2):
+        if emit(c):
+            yield tuple(sorted(c))
+    for grp in (DG, GG, WG):
+        for k in (2, 3):
+            for c in itertools.combinations(grp, k):
+                if emit(c):
+                    yield tuple(sorted(c))
+        for c in itertools.combinations(grp, 2):         # a canonicalisation pair next to a general rule
+            for g in CROSS:
+                if valid(c) and emit(c + (g,)):
+                    yield tuple(sorted(c + (g,)))
+        for i in grp:
+            for g in CROSS:
+                if emit((i, g)):
+                    yield tuple(sorted((i, g)))
+    red = list(range(NG)) + [D0, D1, D1B, AL, ALB] if T else REDUCED
     for c in itertools.combinations(red, 3):
-        if valid(c) and (not T or len(set(c) & set(REDUCED + [D1B, ALB, 12, 21, 22, 23])) >= 2):
-            yield c
+        if (not T or len(set(c) & set(REDUCED + [D1B, ALB, 12, 21, 22, 23])) >= 2) and emit(c):
+            yield tuple(sorted(c))
     if T:
         for c in itertools.combinations(REDUCED, 4):
-            if valid(c) and D1 in c:
-                yield c
+            if D1 in c and emit(c):
+                yield tuple(sorted(c))
+        for grp in (DG, GG):
+            for c in itertools.combinations(grp, 4):
+                if emit(c):
+                    yield tuple(sorted(c))
 
 
 def units(tier):
@@ -134,24 +228,47 @@ BINDINGS = [
     ("https", "example.com:8080", "/app", "", "plain"),
     ("http", "Example.COM", "/app/", "sub", "sub"),
     ("ws", "example.com", "/app/", "", "ws"),
+    ("http", "example.com", "/app", "", "host"),        # Map(host_matching=True), every rule host="example.com"
+    ("https", "example.com", "/", "www", "defsub"),     # Map(default_subdomain="www"), bind(subdomain=None)
+    ("https", "example.com:8080", "/app", "sub", "env"),  # bind_to_environ: host, script, path, query from a WSGI environ
 ]
+MAP_KW = {"host": {"host_matching": True}, "defsub": {"default_subdomain": "www"}}
+MAP_OF = {"env": "sub"}            # the environ binding uses the map of the "sub" variant
 QUERIES = [None, "x=1&y=é", {"x": "a b"}, MultiDict([("k", "1"), ("k", "2"), ("e", "")])]
-EXTRA = {rr.STR: ["é", "a b", "a%20b", "x?y#z"], rr.PATH: ["é/x y"]}
+EXTRA = {rr.STR: ["é b", "a%20b?y#z"], rr.PATH: ["é/x y"]}
 HOSTILE = ["//evil.com/a", "//evil.com//a/", "//evil.com", "/\\evil.com/a", "//evil.com/%2e%2e", "/é", "/a%20b", "/a b",
            "///evil.com/a//"]
 
 
-COMBOS = [(bi, qi) for bi in range(len(BINDINGS)) for qi in range(len(QUERIES))]
+COMBOS = [(bi, qi) for bi in range(len(BINDINGS)) for qi in range(len(QUERIES))
+          if BINDINGS[bi][4] != "env" or qi < 2]          # a WSGI environ carries the query as a string
 OTHER = COMBOS[1:]
 
 
 def via_match(bi, qi):
-    return qi > 0 and (bi + qi) % 2 == 1
+    return qi > 0 and (bi + qi) % 2 == 1 and BINDINGS[bi][4] != "env"
+
+
+def wsgi_str(s: str) -> str:
+    return s.encode("utf-8").decode("latin-1")
+
+
+def bind(m, bi, qi, path=None, method=None):
+    """The adapter of binding bi / query form qi (the environ binding also carries path and method)."""
+    b = BINDINGS[bi]
+    q = None if via_match(bi, qi) else QUERIES[qi]
+    if b[4] == "env":
+        environ = {"wsgi.url_scheme": b[0], "HTTP_HOST": f"{b[3]}.{b[1]}", "SERVER_NAME": "internal", "SERVER_PORT": "8080",
+                   "SCRIPT_NAME": b[2], "PATH_INFO": wsgi_str(path), "REQUEST_METHOD": method,
+                   "QUERY_STRING": wsgi_str(QUERIES[qi] or "")}
+        return m.bind_to_environ(environ, server_name=b[1])
+    sub = b[3] if b[4] == "sub" else None
+    return m.bind(b[1], script_name=b[2], subdomain=sub, url_scheme=b[0], query_args=q)
 
 
 def variant(specs, kind):
-    if kind == "plain":
-        return specs
+    if kind in ("plain", "env"):
+        return specs if kind == "plain" else variant(specs, "sub")
     out = []
     for sp in specs:
         sp = dict(sp)
@@ -159,13 +276,17 @@ def variant(specs, kind):
             sp["subdomain"] = "sub"
         elif kind == "ws":
             sp["websocket"] = True
+        elif kind == "host":
+            sp["host"] = "example.com"
+        elif kind == "defsub" and "subdomain" in sp["wrap"]:
+            sp["subdomain"] = "www"
         out.append(sp)
     return out
 
 
-def build_map(specs, order, strict, merge, rd):
-    return Map([Rule(rr.rule_string(specs[k]), **rr.rule_kwargs(specs[k])) for k in order],
-               strict_slashes=strict, merge_slashes=merge, redirect_defaults=rd)
+def build_map(specs, order, strict, merge, rd, **kw):
+    return Map([rr.to_werkzeug(specs[k], WR) for k in order],
+               strict_slashes=strict, merge_slashes=merge, redirect_defaults=rd, **kw)
 
 
 def q_items(q):
@@ -280,15 +401,17 @@ def check_map(combo, R, tier):
     has_canon = any(sp["defaults"] or sp["alias"] for sp in base)
     any_methods = any(sp["methods"] is not None for sp in base)
     methods = ("GET", "POST") if any_methods else ("GET",)
-    ws_ok = not any(sp["methods"] and "POST" in sp["methods"] for sp in base)
-    paths = rr.path_set(base, EXTRA)
+    # websocket binding: not for POST rules (werkzeug refuses them) and not for rules inside a factory (the factory
+    # forgets websocket=True: finding C03-factory-drops-rule-options)
+    ws_ok = not any((sp["methods"] and "POST" in sp["methods"]) or sp["wrap"] for sp in base)
+    paths = rr.path_set(base, EXTRA, lean=True)
     seenp = set(paths)
     for h in HOSTILE:
         if h not in seenp:
             paths.append(h)
             seenp.add(h)
     for p in list(paths):
-        if p.count("/") >= 2 and "//" not in p and len(paths) < 400:
+        if p.count("/") >= 2 and "//" not in p and len(paths) < 300:
             for h in ("//evil.com" + p, "//evil.com/" + p):
                 if h not in seenp:
                     paths.append(h)
@@ -300,21 +423,24 @@ def check_map(combo, R, tier):
     orders = list(itertools.permutations(range(k)))
     first_combo = True
     rot = 0
-    for strict, merge in ((True, True), (True, False), (False, True), (False, False)):
+    nconf = 0
+    is_group = any(i >= NG for i in combo)
+    for strict, merge in ((True, True), (False, False), (True, False), (False, True)):
+        if is_group and k >= 3 and strict != merge and tier == "quick":
+            continue       # quick: canonicalisation groups of 3 rules under (strict, merge) = (on, on) and (off, off) only
         ref = rr.RefMap(base, strict, merge)
         acc_cache: dict = {}
         for rd in ((True, False) if has_canon else (True,)):
             for order in orders:
                 ads = {}
 
-                def adapter(bi, qi):
-                    b = BINDINGS[bi]
-                    if b[4] not in ads:
-                        ads[b[4]] = build_map(variant(base, b[4]), order, strict, merge, rd)
+                def adapter(bi, qi, path=None, method=None):
+                    v = MAP_OF.get(BINDINGS[bi][4], BINDINGS[bi][4])
+                    if v not in ads:
+                        ads[v] = build_map(variant(base, v), order, strict, merge, rd, **MAP_KW.get(v, {}))
                         R.count("bound_maps")
                     # the query arguments reach the router either through bind() or through match()
-                    return ads[b[4]].bind(b[1], script_name=b[2], subdomain=b[3] if b[4] == "sub" else None,
-                                          url_scheme=b[0], query_args=None if via_match(bi, qi) else QUERIES[qi])
+                    return bind(ads[v], bi, qi, path, method)
 
                 cfg = (names, tuple(order), strict, merge, rd)
                 full = first_combo or (tier == "thorough" and k <= 2)
@@ -340,12 +466,17 @@ def check_map(combo, R, tier):
                 # (and for every configuration of maps <= 2 rules in thorough); otherwise the plain one plus one
                 # further combination per redirecting case, taken round-robin from the remaining ones
                 adcache = {}
+                nconf += 1
+                bi_other = 1 + nconf % (len(BINDINGS) - 1)      # one further binding per configuration, in turn
+                if BINDINGS[bi_other][4] == "ws" and not ws_ok:
+                    bi_other = 1
                 for p, method, first0 in redirecting:
                     if full:
                         todo = COMBOS
                     else:
                         rot += 1
-                        todo = [COMBOS[0], OTHER[rot % len(OTHER)]]
+                        qs = [c for c in COMBOS if c[0] == bi_other]
+                        todo = [COMBOS[0], qs[rot % len(qs)]]
                     pn = rr.normalise_path(p)
                     acc = acc_cache.get((pn, method))
                     if acc is None:
@@ -354,15 +485,20 @@ def check_map(combo, R, tier):
                         if BINDINGS[bi][4] == "ws" and not ws_ok:
                             continue
                         b, q = BINDINGS[bi], QUERIES[qi]
-                        ad = adcache.get((bi, qi))
-                        if ad is None:
-                            ad = adcache[(bi, qi)] = adapter(bi, qi)
-                        if (bi, qi) == (0, 0):
-                            first = first0
-                        else:
-                            first = step(ad, p, method, q if via_match(bi, qi) else None)
+                        if b[4] == "env":
+                            ad = adapter(bi, qi, p, method)      # path, method and query come from the environ
+                            first = step(ad, None, None, None)
                             R.count("matches")
-                            R.use("q-via-match" if via_match(bi, qi) else "q-via-bind")
+                        else:
+                            ad = adcache.get((bi, qi))
+                            if ad is None:
+                                ad = adcache[(bi, qi)] = adapter(bi, qi)
+                            if (bi, qi) == (0, 0):
+                                first = first0
+                            else:
+                                first = step(ad, p, method, q if via_match(bi, qi) else None)
+                                R.count("matches")
+                                R.use("q-via-match" if via_match(bi, qi) else "q-via-bind")
                         if first[0] != "redir":
                             R.violation("redirect:depends-on-binding",
                                         {"kind": "chain", "rules": base, "order": list(order), "strict": strict,
@@ -444,19 +580,28 @@ def replay(rec):
     q = rec["query"]
     if isinstance(q, (list, tuple)):
         q = MultiDict([tuple(x) for x in q])
-    m = build_map(variant(specs, b[4]), order, rec["strict"], rec["merge"], rec["rd"])
+    v = MAP_OF.get(b[4], b[4])
+    m = build_map(variant(specs, v), order, rec["strict"], rec["merge"], rec["rd"], **MAP_KW.get(v, {}))
     qi = next((i for i, x in enumerate(QUERIES) if repr(x) == repr(q)), 0)
     bi = next((i for i, x in enumerate(BINDINGS) if tuple(x) == b), 0)
     vm = via_match(bi, qi)
-    ad = m.bind(b[1], script_name=b[2], subdomain=b[3] if b[4] == "sub" else None, url_scheme=b[0],
-                query_args=None if vm else q)
+    ad = bind(m, bi, qi, rec["path"], rec["method"])
     ref = rr.RefMap(specs, rec["strict"], rec["merge"])
     pn = rr.normalise_path(rec["path"])
-    first = step(ad, rec["path"], rec["method"], q if vm else None)
-    head = (f"Map({[rr.rule_string(variant(specs, b[4])[i]) + ' ' + str({k: v for k, v in rr.rule_kwargs(variant(specs, b[4])[i]).items() if k != 'endpoint'}) for i in order]}, "
+    if b[4] == "env":
+        first = step(ad, None, None, None)
+    else:
+        first = step(ad, rec["path"], rec["method"], q if vm else None)
+
+    def show(sp):
+        kw = {k: x for k, x in rr.rule_kwargs(sp).items()}
+        return rr.full_rule_string(sp) + " " + str(kw) + (" in " + "(".join(sp["wrap"]) if sp["wrap"] else "")
+    head = (f"Map({[show(variant(specs, v)[i]) for i in order]}, {MAP_KW.get(v, {})} "
             f"strict_slashes={rec['strict']}, merge_slashes={rec['merge']}, redirect_defaults={rec['rd']})"
-            f".bind({b[1]!r}, script_name={b[2]!r}, subdomain={b[3]!r}, url_scheme={b[0]!r}, query_args={q!r})"
-            f".match({rec['path']!r}, method={rec['method']!r}{', query_args=' + repr(q) if vm else ''})"
+            + (f".bind_to_environ(HTTP_HOST={b[3]}.{b[1]}, SCRIPT_NAME={b[2]!r}, QUERY_STRING={q!r}, server_name={b[1]!r})"
+               if b[4] == "env" else
+               f".bind({b[1]!r}, script_name={b[2]!r}, subdomain={(b[3] if b[4] == 'sub' else None)!r}, url_scheme={b[0]!r}, query_args={q!r})")
+            + f".match({rec['path']!r}, method={rec['method']!r}{', query_args=' + repr(q) if vm else ''})"
             f"{'   # query_args were given to match(), not bind()' if vm else ''}\n")
     if first[0] != "redir":
         bad = "depends-on-binding" in rec["problems"] or "exception" in rec["problems"]
